@@ -19,6 +19,26 @@ def receiver_text(call: ast.Call) -> str:
     return norm(call.func.value) if isinstance(call.func, ast.Attribute) else ''
 
 
+def load_restores_only_saved_children(chk: Check, rule: str) -> None:
+    """A composite stepper that is loaded gets a child stepper only from a SAVED child state (recreate_stepper): "no child saved" is how a conditional that has not
+    been decided yet -- or a block position whose instruction has not started -- looks in a checkpoint; creating a fresh child for it on load enters a branch whose
+    predicate was never evaluated (shared with C09)."""
+    prog = chk.prog
+    n = 0
+    for sname in ('_BlockStepper', '_IfStepper', '_WhileStepper'):
+        c = prog.cls(f'workchains.{sname}')
+        lf = c.vmethods.get('load_instance_state')
+        if lf is None:
+            continue
+        lf = prog.view(lf)
+        n += 1
+        made = [x for x in calls_in_func(lf, 'create_stepper')]
+        chk.ob(rule, lf, not made, f'{sname}.load_instance_state builds a child stepper from saved state only' + ('' if not made else
+               f': {norm(made[0])} starts a body that the running stepper would only have entered after evaluating its predicate'), node=made[0] if made else None,
+               kind='no-fresh-child-on-load')
+    chk.floor(f'{rule}:composite-loaders', n, 3)
+
+
 def run(chk: Check) -> None:
     prog = chk.prog
     ctx = chk.ctx
@@ -37,6 +57,10 @@ def run(chk: Check) -> None:
     # never had (shared with C13)
     from .c13 import resume_value_reaches_future
     resume_value_reaches_future(chk, 'SYM-waiting-restored')
+    # ... and the future that wake-up resolved is the one the first step after the restore awaits (shared with C06)
+    from .c06 import rearm_after_interruption
+    rearm_after_interruption(chk, 'SYM-waiting-restored')
+    load_restores_only_saved_children(chk, 'SYM-stepper-child')
     # "no completed step is executed again": the outcome of a step interrupted by a pause is entered before anything (a listener, a hook) can take a checkpoint (shared with C05)
     from .c05 import outcome_entered_before_pause_hooks
     outcome_entered_before_pause_hooks(chk, 'SYM-no-step-twice')
@@ -111,6 +135,12 @@ def run(chk: Check) -> None:
         remade = [norm(x.func.value) for x in calls_in_func(rc, 'recreate_from')] + [norm(x.func) for x in calls_in_func(rc) if isinstance(x.func, ast.Name) and x.func.id.endswith('Stepper')]
         chk.ob('SIB-create-recreate', rc, made == [sname] and remade == [sname], f'{iname}: create_stepper builds {made}, recreate_stepper rebuilds {remade} (expected {sname})',
                kind='same-stepper-class')
+        # the restored stepper belongs to THIS instruction: what identifies the instruction in the load context (``<kind>_instruction=...``), or is handed to the
+        # stepper's constructor, is ``self`` -- not a module-level instance of the same class (a bare ``return_`` has no exit code; ``return_(418)`` has one)
+        ictx = [k for x in ast.walk(rc.node) if isinstance(x, ast.Call) and last_name(x) == 'LoadSaveContext' for k in x.keywords if k.arg and k.arg not in ('workchain', 'loop', 'loader')]
+        ctor = [x for x in calls_in_func(rc) if isinstance(x.func, ast.Name) and x.func.id.endswith('Stepper')]
+        ok_self = bool(ictx or ctor) and all(norm(k.value) == 'self' for k in ictx) and all(x.args and norm(x.args[0]) == 'self' for x in ctor)
+        chk.ob('SIB-create-recreate', rc, ok_self, f'{iname}: the recreated stepper is bound to this very instruction', kind='recreated-for-self')
         if iname != '_Return':
             rcs = [x for x in calls_in_func(rc, 'recreate_from')]
             ok = len(rcs) == 1 and norm(rcs[0].args[0]) == rc.params[1]
